@@ -8,7 +8,9 @@
                             S:<mac>:<ip>  StartHunt     P:<mac>:<ip>  StopHunt     C  Close
                             W:<mac>:<ip>  the first live loop with that destination passes its select
                             R:<counter-before>:<T|F host known>:<src ip>:<eth src>:<msg>
-                            D:<ms>        real-time delay (ignored by the model)               *)
+                            X:<msg>       any other ICMPv6 message (echo, NS, NA) through the same receive buffer
+                            D:<ms>        real-time delay (ignored by the model)
+                          after every R and X the WHOLE router table is observed                *)
 From PV Require Import Base.Text Model.Icmp6SpoofRA Model.Icmp6Spoof Spec.RFC4861 Model.Icmp6SpoofKnown.
 Open Scope string_scope.
 Open Scope N_scope.
@@ -96,9 +98,12 @@ Definition proj_spec (proj : string) (mac0 : bytes) (d : ra_info) : string :=
 
 (* ---------------- known defect classes: Model/Icmp6SpoofKnown.v ---------------- *)
 Definition key_of (proj : string) (p : bytes) (d : ra_info) : string :=
-  if String.eqb proj "rdnss" then (if known_rdnss_multiple d then "rdnss-multiple" else "-")
+  if known_prefix_len_over_128 p then "prefix-length-over-128"
+  else if String.eqb proj "rdnss" then
+    (if known_rdnss_malformed p then "rdnss-malformed" else if known_rdnss_multiple d then "rdnss-multiple" else "-")
   else if String.eqb proj "dnssl" then (if known_dnssl_multiple d then "dnssl-multiple" else "-")
-  else if String.eqb proj "ri" then (if known_ri_multiple d then "ri-multiple" else "-")
+  else if String.eqb proj "ri" then
+    (if known_ri_reserved_prf p then "ri-reserved-prf" else if known_ri_multiple d then "ri-multiple" else "-")
   else "-".
 
 (* ---------------- kind ra ---------------- *)
@@ -122,11 +127,13 @@ Definition do_ra (proj : string) (p : bytes) : string :=
     | ORA r => show_ret r
     | _ => "?"
     end in
-  match ra_decode p with
-  | Some d => if xn_area p then out3 m "-" "-" else
-              let s := proj_spec proj std_eth d in
+  if xn_area p then out3 m "-" "-" else
+  if blen p <? 16 then out3 m "-" "-" else
+  match ra_decode_lenient p with
+  | Some d => let s := proj_spec proj std_eth d in
               out3 m s (if String.eqb m s then "-" else key_of proj p d)
-  | None => out3 m "-" "-"
+  | None => let s := "err:EOther" in
+            out3 m s (if String.eqb m s then "-" else if known_prefix_len_over_128 p then "prefix-length-over-128" else "-")
   end.
 
 (* ---------------- kind h ---------------- *)
@@ -167,10 +174,16 @@ Fixpoint find_loop (l : list sloop) (dst : addr) (i : nat) : option nat :=
   | x :: r => if l_alive x && addr_eqb (l_dst x) dst then Some i else find_loop r dst (S i)
   end.
 
-Definition show_table (st : state) (src : bytes) : string :=
+Fixpoint ins_rt (x : bytes * router) (l : list (bytes * router)) : list (bytes * router) :=
+  match l with
+  | [] => [x]
+  | y :: r => if bytes_ltb (fst y) (fst x) then y :: ins_rt x r else x :: l
+  end.
+(* the whole router table, sorted by address: every learned router is observed after every packet *)
+Definition show_table (st : state) : string :=
   "def=" ++ (match defrouter st with Some k => hx k | None => "-" end)
-  ++ " n=" ++ dec_of_nat (List.length (routers st)) ++ " "
-  ++ (match rt_find (routers st) src with Some r => show_router_all r | None => "none" end).
+  ++ " n=" ++ dec_of_nat (List.length (routers st))
+  ++ String.concat "" (map (fun kr => " [" ++ show_router_all (snd kr) ++ "]") (fold_right ins_rt [] (routers st))).
 
 Definition set_repeat (st : state) (z : Z) : state :=
   mkSt (hunt st) (loops st) (routers st) (defrouter st) z (closed st).
@@ -202,8 +215,13 @@ Definition do_tok (st : state) (tok : string) : option (state * option string * 
       match Z_of_dec c, bool_of_tok hk, bytes_of_tok s, bytes_of_tok e, bytes_of_tok msg with
       | Some z, Some k, Some src, Some eth, Some p =>
           let '(st', o) := step std_cfg (set_repeat st z) (RxRA src eth p k) in
-          Some (st', Some (show_out o ++ " " ++ show_table st' src), false)
+          Some (st', Some (show_out o ++ " " ++ show_table st'), false)
       | _, _, _, _, _ => None
+      end
+  | ["X"; msg] =>
+      match bytes_of_tok msg with
+      | Some p => let '(st', o) := step std_cfg st (RxOther p) in Some (st', Some ("other " ++ show_table st'), false)
+      | None => None
       end
   | ["D"; _] => Some (st, None, false)
   | _ => None
